@@ -121,13 +121,15 @@ func (r *Reporter) formatPrettyError(violation Violation) string {
 			}
 		}
 
-		// Help section with documentation link
 		builder.WriteString(strings.Repeat(" ", lineNumWidth))
 		builder.WriteString(" |\n")
-		builder.WriteString("   = help: ")
-		builder.WriteString(codes.GetDocumentationURL(violation.GetCode()))
-		builder.WriteString("\n")
 	}
+
+	// Help section with documentation link: also when the source excerpt is not
+	// available (a position remapped by a //line directive, an unreadable file)
+	builder.WriteString("   = help: ")
+	builder.WriteString(codes.GetDocumentationURL(violation.GetCode()))
+	builder.WriteString("\n")
 
 	return builder.String()
 }
